@@ -228,6 +228,8 @@ func mkTensorProto(name string, t AbsTensor, enc string) (*onnx.TensorProto, err
 type DimSpec struct {
 	Size  int64  `json:"size"`
 	Param string `json:"param"`
+	// Enc selects another encoding of an unspecified dimension: "zero" an explicit dim_value 0, "symempty" a dim_param "".
+	Enc string `json:"enc"`
 }
 
 func mkValueInfo(name string, dt string, dims []DimSpec) *onnx.ValueInfoProto {
@@ -235,6 +237,10 @@ func mkValueInfo(name string, dt string, dims []DimSpec) *onnx.ValueInfoProto {
 	for _, d := range dims {
 		dim := &onnx.TensorShapeProto_Dimension{}
 		switch {
+		case d.Enc == "zero":
+			dim.Value = &onnx.TensorShapeProto_Dimension_DimValue{DimValue: 0}
+		case d.Enc == "symempty":
+			dim.Value = &onnx.TensorShapeProto_Dimension_DimParam{DimParam: ""}
 		case d.Param != "":
 			dim.Value = &onnx.TensorShapeProto_Dimension_DimParam{DimParam: d.Param}
 		case d.Size > 0:
